@@ -253,7 +253,7 @@ func scenarioC15(rc *RunCtx) {
 	rc.Nontriv = true
 	rc.Key = MixSeed(fp, HashString(rc.Sample))
 	if wall > 120*time.Second {
-		rc.V(viol("harness", "slow-run", "run took %v", wall))
+		rc.Inc("slow_runs") // real time is not part of any verdict
 	}
 	if s.Deadlock {
 		rc.V(viol("C15.R2", "deadlock", "no simulated goroutine could run (deadlock) while sharing %v", spec))
